@@ -422,7 +422,8 @@ impl<'a> PGen<'a> {
 
     fn gen_ref(&mut self, u: &mut Choices) -> Item {
         let name = self.refs[u.below(self.refs.len())].clone();
-        Item::Ref { neg: u.chance(3, 10), name, msg: None }
+        let msg = if self.messages && u.chance(1, 2) { Some(self.fresh("m")) } else { None };
+        Item::Ref { neg: u.chance(3, 10), name, msg }
     }
 
     pub fn gen_cond(&mut self, u: &mut Choices, ctx: Option<&V>, depth: usize, vars: &Vars) -> Cnf {
@@ -475,7 +476,8 @@ impl<'a> PGen<'a> {
                         args.push(Expr::Query { some: false, q });
                     }
                 }
-                Item::PCall { neg: u.chance(1, 4), name, args, msg: None }
+                let msg = if self.messages { Some(self.fresh("m")) } else { None };
+                Item::PCall { neg: u.chance(1, 4), name, args, msg }
             }
             5 => {
                 let types = doc_types(self.doc);
